@@ -872,3 +872,33 @@ def LikeMatch (p v : Bytes) : Prop :=
   p ≠ [] ∧ ∃ pre suf, v = pre ++ likeCore p ++ suf ∧ (likeLead p = false → pre = []) ∧ (likeTrail p = false → suf = [])
 
 end LinVerif.TagFilter
+
+namespace LinVerif.TagFilter
+
+/-! ### trie blocks (index/model/trie_bucket_builder.go)
+
+On disk a dictionary bucket is a sequence of succinct tries ("blocks") of at most `blockSize` keys
+(`math.MaxInt16` at flush, `math.MaxUint16` when compaction re-splits merged tries). The dictionary
+parts of this model are flat entry lists; `blocksOf` is the split `TrieBucketBuilder.Write` performs,
+and reads go block by block (`TrieBucket.GetValue` / `FindValuesByLike` loop over `b.kvs`). -/
+
+/-- `numBlocks := len(keys) / blockSize; if len(keys)%blockSize != 0 { numBlocks++ }` -/
+def numBlocks (len bs : Nat) : Nat := len / bs + (if len % bs ≠ 0 then 1 else 0)
+
+/-- the loop of `TrieBucketBuilder.Write`: block `i` = `keys[i*bs : min(i*bs+bs, len)]` -/
+def blocksOf {α : Type} (bs : Nat) (l : List α) : List (List α) :=
+  (List.range (numBlocks l.length bs)).map (fun i => (l.drop (i * bs)).take bs)
+
+/-- `TrieBucket.GetValue` over the blocks of a bucket: the first block that has the key -/
+def blocksFind (blocks : List DictPart) (kid : KeyId) (v : Bytes) : Option ValId :=
+  match blocks with
+  | [] => none
+  | b :: t => match partFind b kid v with
+    | some id => some id
+    | none => blocksFind t kid v
+
+/-- `TrieBucket.FindValuesByLike` / `FindValuesByRegexp` over the blocks of a bucket -/
+def blocksScan (blocks : List DictPart) (kid : KeyId) (pre : Bytes) (check : Bytes → Bool) : List ValId :=
+  blocks.flatMap (fun b => (b.filter (fun e => e.1 == kid && pre.isPrefixOf e.2.1 && check e.2.1)).map (·.2.2))
+
+end LinVerif.TagFilter
